@@ -43,6 +43,10 @@ def replay(d):
     geo, _ = GB.build(M, 'rect', inp, d['convention'], atm, None, mesh)
     mesh_, surf = GB.configure(geo, mesh, 0.0, geo.atmosphere_volume, geo.atmosphere_connection, surfaces)
     grid = T.t2grid().fromgeo(geo)
+    act_blocks, act_cons = list(grid.blocklist), list(grid.connectionlist)
+    if d.get('boundary'):
+        import numpy as np
+        GB.attach_boundary(T, np, geo, grid, d['boundary'], float(num(d.get('bvol')) or 0.0), inp, nx, ny)
     bad = []
     def S(ok, label, what=''):
         if not ok: bad.append((label, what))
@@ -85,24 +89,24 @@ def replay(d):
     S(pa == 0, 'permeability angle is zero', 'permeability angle %r' % pa)
     S(geo2.atmosphere_type == atm, 'atmosphere type')
     n_atm = {0: 1, 1: ncol, 2: 0}[atm]
-    want_atm = [b.name for b in grid.blocklist[:n_atm]]
+    want_atm = [b.name for b in act_blocks[:n_atm]]
     got_atm = [bm.get(n) for n in geo2.block_name_list[:n_atm]]
     S(got_atm == want_atm, 'block map sends the atmosphere blocks to the original atmosphere blocks', '%r vs %r' % (got_atm, want_atm))
     S(sorted(bm.keys()) == sorted(geo2.block_name_list), 'block map covers exactly the blocks of the reconstructed geometry',
       '%r vs %r' % (sorted(bm.keys()), sorted(geo2.block_name_list)))
-    n1, n2_ = [b.name for b in grid.blocklist], [b.name for b in grid2.blocklist]
+    n1, n2_ = [b.name for b in act_blocks], [b.name for b in grid2.blocklist]
     if S(n1 == n2_, 'block names reproduced in order', 'original %r, reproduced %r' % (n1, n2_)):
-        for b1, b2 in zip(grid.blocklist, grid2.blocklist):
+        for b1, b2 in zip(act_blocks, grid2.blocklist):
             where = 'block %r' % b1.name
             P('block volume reproduced', b2.volume, b1.volume, where)
             S((b1.centre is None) == (b2.centre is None), 'block centre presence', where)
             if b1.centre is not None and b2.centre is not None:
                 for ax in range(3): P('block centre reproduced', b2.centre[ax], b1.centre[ax], where)
             S(b1.atmosphere == b2.atmosphere, 'atmosphere flag reproduced', where)
-    k1 = [tuple(b.name for b in con.block) for con in grid.connectionlist]
+    k1 = [tuple(b.name for b in con.block) for con in act_cons]
     k2 = [tuple(b.name for b in con.block) for con in grid2.connectionlist]
     if S(k1 == k2, 'connections reproduced in order and orientation', 'original %r, reproduced %r' % (k1, k2)):
-        for c1, c2 in zip(grid.connectionlist, grid2.connectionlist):
+        for c1, c2 in zip(act_cons, grid2.connectionlist):
             where = 'connection %s' % (tuple(b.name for b in c1.block),)
             P('connection distance 1 reproduced', c2.distance[0], c1.distance[0], where)
             P('connection distance 2 reproduced', c2.distance[1], c1.distance[1], where)
